@@ -7,10 +7,14 @@
 package wkb
 
 //@ func readPoints
-//@   prop C07
+//@   prop C07, C05
+//@   mode ufloat
 //@   requires [reader] typeof(r) != nil && typeof(byteOrder) != nil
 //@   ensures [geometry_or_error] result1 == nil ==> len(result0) >= 0
-//@   assert [count_checked_against_input] `points := make([]geom.Point, numPoints)` 16 * numPoints <= remaining(r)
+//@   ensures [consumes_two] result1 == nil ==> ghost(r, "pos") == old(ghost(r, "pos")) + 2
+//@   ensures [reads_back] old(ghost(r, "pos")) >= 0 && old(ghost(r, "pos")) + 1 < ghost(r, "n") && old(tokKind(ghostAt(r, "tok", ghost(r, "pos"))) == 2 && tokOrder(ghostAt(r, "tok", ghost(r, "pos"))) == orderCode(byteOrder) && tokKind(ghostAt(r, "tok", ghost(r, "pos") + 1)) == 4 && tokOrder(ghostAt(r, "tok", ghost(r, "pos") + 1)) == orderCode(byteOrder) && tokN(ghostAt(r, "tok", ghost(r, "pos") + 1)) == tokU(ghostAt(r, "tok", ghost(r, "pos"))) && 0 <= tokU(ghostAt(r, "tok", ghost(r, "pos"))) && tokU(ghostAt(r, "tok", ghost(r, "pos"))) <= 4294967295) ==> result1 == nil && fresh(result0) && runAt(objOf(r), old(ghost(r, "pos")) + 1, orderCode(byteOrder), result0)
+//@   modifies ghost(r, "pos")
+//@   assert [C07: count_checked_against_input] `points := make([]geom.Point, numPoints)` 16 * numPoints <= remaining(r)
 
 // The per-type readers: whatever the bytes are, they return a geometry or an
 // error and never fail a type assertion, index out of range or dereference nil.
@@ -22,28 +26,43 @@ package wkb
 //@   trusted dispatch through the package-level registry of reader functions (dynamic calls through a global map)
 //@   opt writes=geom.Point,geom.Path,geom.LineString,geom.Polygon,geom.Geom,uint32,float64,alloc
 //@   requires [reader] typeof(r) != nil
-//@   modifies nothing
+//@   modifies ghost(r, "pos")
 
 //@ func pointReader
-//@   prop C07
+//@   prop C07, C05
+//@   mode ufloat
 //@   requires [reader] typeof(r) != nil && typeof(byteOrder) != nil
+//@   ensures [consumes_one] result1 == nil ==> ghost(r, "pos") == old(ghost(r, "pos")) + 1
+//@   ensures [reads_back] old(ghost(r, "pos")) >= 0 && old(ghost(r, "pos")) < ghost(r, "n") && old(tokKind(ghostAt(r, "tok", ghost(r, "pos"))) == 3 && tokOrder(ghostAt(r, "tok", ghost(r, "pos"))) == orderCode(byteOrder)) ==> result1 == nil && typeof(result0) == geom.Point && ptAt(objOf(r), old(ghost(r, "pos")), orderCode(byteOrder), result0.(geom.Point))
+//@   modifies ghost(r, "pos")
+
+//@ pred ptsTokAt(s int, i int, oc int) = tokKind(ghostAtO(s, "tok", i)) == 2 && tokOrder(ghostAtO(s, "tok", i)) == oc && tokKind(ghostAtO(s, "tok", i + 1)) == 4 && tokOrder(ghostAtO(s, "tok", i + 1)) == oc && tokN(ghostAtO(s, "tok", i + 1)) == tokU(ghostAtO(s, "tok", i)) && 0 <= tokU(ghostAtO(s, "tok", i)) && tokU(ghostAtO(s, "tok", i)) <= 4294967295
 
 //@ func lineStringReader
-//@   prop C07
+//@   prop C07, C05
+//@   mode ufloat
 //@   requires [reader] typeof(r) != nil && typeof(byteOrder) != nil
 //@   ensures [geometry_or_error] result1 == nil ==> typeof(result0) == geom.LineString
+//@   ensures [consumes_two] result1 == nil ==> ghost(r, "pos") == old(ghost(r, "pos")) + 2
+//@   ensures [reads_back] old(ghost(r, "pos")) >= 0 && old(ghost(r, "pos")) + 1 < ghost(r, "n") && old(ptsTokAt(objOf(r), ghost(r, "pos"), orderCode(byteOrder))) ==> result1 == nil && typeof(result0) == geom.LineString && runAt(objOf(r), old(ghost(r, "pos")) + 1, orderCode(byteOrder), result0.(geom.LineString))
+//@   modifies ghost(r, "pos")
 
 //@ func polygonReader
-//@   prop C07
+//@   prop C07, C05
+//@   mode ufloat
 //@   requires [reader] typeof(r) != nil && typeof(byteOrder) != nil
 //@   ensures [geometry_or_error] result1 == nil ==> typeof(result0) == geom.Polygon
+//@   ensures [reads_back] old(ghost(r, "pos")) >= 0 && old(tokKind(ghostAt(r, "tok", ghost(r, "pos"))) == 2 && tokOrder(ghostAt(r, "tok", ghost(r, "pos"))) == orderCode(byteOrder) && 0 <= tokU(ghostAt(r, "tok", ghost(r, "pos"))) && tokU(ghostAt(r, "tok", ghost(r, "pos"))) <= 4294967295 && ghost(r, "pos") + 2 * tokU(ghostAt(r, "tok", ghost(r, "pos"))) < ghost(r, "n") && (forall k int :: 0 <= k && k < tokU(ghostAt(r, "tok", ghost(r, "pos"))) ==> ptsTokAt(objOf(r), ghost(r, "pos") + 1 + 2 * k, orderCode(byteOrder)))) ==> result1 == nil && typeof(result0) == geom.Polygon && len(result0.(geom.Polygon)) == old(tokU(ghostAt(r, "tok", ghost(r, "pos")))) && ghost(r, "pos") == old(ghost(r, "pos")) + 1 + 2 * len(result0.(geom.Polygon)) && (forall k int :: 0 <= k && k < len(result0.(geom.Polygon)) ==> runAt(objOf(r), old(ghost(r, "pos")) + 2 + 2 * k, orderCode(byteOrder), result0.(geom.Polygon)[k]))
+//@   modifies ghost(r, "pos")
 //@   loop 1 `for i := uint32(0); i < numRings; i++`
-//@     invariant 0 <= i && i <= numRings && len(rings) == numRings && fresh(rings)
+//@     invariant [basic] 0 <= i && i <= numRings && len(rings) == numRings && fresh(rings) && numRings <= 4294967295
+//@     invariant [wellformed_progress] old(ghost(r, "pos")) >= 0 && old(tokKind(ghostAt(r, "tok", ghost(r, "pos"))) == 2 && tokOrder(ghostAt(r, "tok", ghost(r, "pos"))) == orderCode(byteOrder) && 0 <= tokU(ghostAt(r, "tok", ghost(r, "pos"))) && tokU(ghostAt(r, "tok", ghost(r, "pos"))) <= 4294967295 && ghost(r, "pos") + 2 * tokU(ghostAt(r, "tok", ghost(r, "pos"))) < ghost(r, "n") && (forall k int :: 0 <= k && k < tokU(ghostAt(r, "tok", ghost(r, "pos"))) ==> ptsTokAt(objOf(r), ghost(r, "pos") + 1 + 2 * k, orderCode(byteOrder)))) ==> numRings == old(tokU(ghostAt(r, "tok", ghost(r, "pos")))) && ghost(r, "pos") == old(ghost(r, "pos")) + 1 + 2 * i && (forall k int :: 0 <= k && k < i ==> runAt(objOf(r), old(ghost(r, "pos")) + 2 + 2 * k, orderCode(byteOrder), rings[k]))
 //@     decreases numRings - i
 
 //@ func multiPointReader
 //@   prop C07
 //@   requires [reader] typeof(r) != nil && typeof(byteOrder) != nil
+//@   modifies ghost(r, "pos")
 //@   ensures [geometry_or_error] result1 == nil ==> typeof(result0) == geom.MultiPoint
 //@   loop 1 `for i := uint32(0); i < numPoints; i++`
 //@     invariant 0 <= i && i <= numPoints && len(points) == numPoints && fresh(points)
@@ -52,6 +71,7 @@ package wkb
 //@ func multiLineStringReader
 //@   prop C07
 //@   requires [reader] typeof(r) != nil && typeof(byteOrder) != nil
+//@   modifies ghost(r, "pos")
 //@   ensures [geometry_or_error] result1 == nil ==> typeof(result0) == geom.MultiLineString
 //@   loop 1 `for i := uint32(0); i < numLineStrings; i++`
 //@     invariant 0 <= i && i <= numLineStrings && len(lineStrings) == numLineStrings && fresh(lineStrings)
@@ -60,6 +80,7 @@ package wkb
 //@ func multiPolygonReader
 //@   prop C07
 //@   requires [reader] typeof(r) != nil && typeof(byteOrder) != nil
+//@   modifies ghost(r, "pos")
 //@   ensures [geometry_or_error] result1 == nil ==> typeof(result0) == geom.MultiPolygon
 //@   loop 1 `for i := uint32(0); i < numPolygons; i++`
 //@     invariant 0 <= i && i <= numPolygons && len(polygons) == numPolygons && fresh(polygons)
@@ -68,6 +89,7 @@ package wkb
 //@ func geometryCollectionReader
 //@   prop C07
 //@   requires [reader] typeof(r) != nil && typeof(byteOrder) != nil
+//@   modifies ghost(r, "pos")
 //@   ensures [geometry_or_error] result1 == nil ==> typeof(result0) == geom.GeometryCollection
 //@   loop 1 `for i := uint32(0); i < numGeometries; i++`
 //@     invariant 0 <= i && i <= numGeometries && len(geoms) == numGeometries && fresh(geoms)
@@ -82,19 +104,19 @@ package wkb
 //   Polygon body := u32 rings · (u32 n · run of n points) per ring
 //   Multi*/collection body := u32 count · count nested geometries (each with its own flag and code)
 
-//@ pred u8At(s interface{}, i int, v int) = tokKind(ghostAt(s, "tok", i)) == 1 && tokU(ghostAt(s, "tok", i)) == v
-//@ pred u32At(s interface{}, i int, oc int, v int) = tokKind(ghostAt(s, "tok", i)) == 2 && tokOrder(ghostAt(s, "tok", i)) == oc && tokU(ghostAt(s, "tok", i)) == v
-//@ pred ptAt(s interface{}, i int, oc int, p geom.Point) = tokKind(ghostAt(s, "tok", i)) == 3 && tokOrder(ghostAt(s, "tok", i)) == oc && tokSamePt(tokPt(ghostAt(s, "tok", i)), p)
-//@ pred runAt(s interface{}, i int, oc int, ps []geom.Point) = tokKind(ghostAt(s, "tok", i)) == 4 && tokOrder(ghostAt(s, "tok", i)) == oc && tokN(ghostAt(s, "tok", i)) == len(ps) && (forall k int :: 0 <= k && k < len(ps) ==> tokSamePt(tokPtAt(ghostAt(s, "tok", i), k), ps[k]))
-//@ pred ptsAt(s interface{}, i int, oc int, ps []geom.Point) = u32At(s, i, oc, len(ps)) && runAt(s, i + 1, oc, ps)
-//@ pred hdrAt(s interface{}, i int, oc int, code int) = u8At(s, i, oc) && u32At(s, i + 1, oc, code)
+//@ pred u8At(s int, i int, v int) = tokKind(ghostAtO(s, "tok", i)) == 1 && tokU(ghostAtO(s, "tok", i)) == v
+//@ pred u32At(s int, i int, oc int, v int) = tokKind(ghostAtO(s, "tok", i)) == 2 && tokOrder(ghostAtO(s, "tok", i)) == oc && tokU(ghostAtO(s, "tok", i)) == v
+//@ pred ptAt(s int, i int, oc int, p geom.Point) = tokKind(ghostAtO(s, "tok", i)) == 3 && tokOrder(ghostAtO(s, "tok", i)) == oc && tokSamePt(tokPt(ghostAtO(s, "tok", i)), p)
+//@ pred runAt(s int, i int, oc int, ps []geom.Point) = tokKind(ghostAtO(s, "tok", i)) == 4 && tokOrder(ghostAtO(s, "tok", i)) == oc && tokN(ghostAtO(s, "tok", i)) == len(ps) && (forall k int :: 0 <= k && k < len(ps) ==> tokSamePt(tokPtAt(ghostAtO(s, "tok", i), k), ps[k]))
+//@ pred ptsAt(s int, i int, oc int, ps []geom.Point) = u32At(s, i, oc, len(ps)) && runAt(s, i + 1, oc, ps)
+//@ pred hdrAt(s int, i int, oc int, code int) = u8At(s, i, oc) && u32At(s, i + 1, oc, code)
 //@ pred orderOK(o binary.ByteOrder) = orderCode(o) == 0 || orderCode(o) == 1
 
 //@ func writePoint
 //@   prop C05
 //@   mode ufloat
 //@   requires [stream] typeof(w) != nil && typeof(byteOrder) != nil
-//@   ensures [layout] result == nil ==> ghost(w, "n") == old(ghost(w, "n")) + 1 && (forall i int :: i < old(ghost(w, "n")) ==> ghostAt(w, "tok", i) == old(ghostAt(w, "tok", i))) && ptAt(w, old(ghost(w, "n")), orderCode(byteOrder), point)
+//@   ensures [layout] result == nil ==> ghost(w, "n") == old(ghost(w, "n")) + 1 && (forall i int :: i < old(ghost(w, "n")) ==> ghostAt(w, "tok", i) == old(ghostAt(w, "tok", i))) && ptAt(objOf(w), old(ghost(w, "n")), orderCode(byteOrder), point)
 //@   modifies ghost(w, "n"), ghost(w, "tok")
 
 //@ func writePoints
@@ -104,11 +126,11 @@ package wkb
 //@   requires [count_fits] len(points) <= 4294967295
 //@   ensures [count] result == nil ==> ghost(w, "n") == old(ghost(w, "n")) + 2
 //@   ensures [prefix] result == nil ==> (forall i int :: i < old(ghost(w, "n")) ==> ghostAt(w, "tok", i) == old(ghostAt(w, "tok", i)))
-//@   ensures [length_token] result == nil ==> u32At(w, old(ghost(w, "n")), orderCode(byteOrder), len(points))
-//@   ensures [run_token] result == nil ==> runAt(w, old(ghost(w, "n")) + 1, orderCode(byteOrder), points)
+//@   ensures [length_token] result == nil ==> u32At(objOf(w), old(ghost(w, "n")), orderCode(byteOrder), len(points))
+//@   ensures [run_token] result == nil ==> runAt(objOf(w), old(ghost(w, "n")) + 1, orderCode(byteOrder), points)
 //@   modifies ghost(w, "n"), ghost(w, "tok")
 
-//@ pred polyBodyAt(s interface{}, b int, oc int, rings []geom.Path) = u32At(s, b, oc, len(rings)) && (forall k int :: 0 <= k && k < len(rings) ==> ptsAt(s, b + 1 + 2 * k, oc, rings[k]))
+//@ pred polyBodyAt(s int, b int, oc int, rings []geom.Path) = u32At(s, b, oc, len(rings)) && (forall k int :: 0 <= k && k < len(rings) ==> ptsAt(s, b + 1 + 2 * k, oc, rings[k]))
 
 //@ func writePointss
 //@   prop C05
@@ -117,13 +139,13 @@ package wkb
 //@   requires [counts_fit] len(pointss) <= 4294967295 && (forall k int :: 0 <= k && k < len(pointss) ==> len(pointss[k]) <= 4294967295)
 //@   ensures [count] result == nil ==> ghost(w, "n") == old(ghost(w, "n")) + 1 + 2 * len(pointss)
 //@   ensures [prefix] result == nil ==> (forall i int :: i < old(ghost(w, "n")) ==> ghostAt(w, "tok", i) == old(ghostAt(w, "tok", i)))
-//@   ensures [body] result == nil ==> polyBodyAt(w, old(ghost(w, "n")), orderCode(byteOrder), pointss)
+//@   ensures [body] result == nil ==> polyBodyAt(objOf(w), old(ghost(w, "n")), orderCode(byteOrder), pointss)
 //@   modifies ghost(w, "n"), ghost(w, "tok")
 //@   loop 1 `for _, points := range pointss`
 //@     invariant [count] #1 <= len(pointss) && ghost(w, "n") == old(ghost(w, "n")) + 1 + 2 * #1
 //@     invariant [prefix] forall i int :: i < old(ghost(w, "n")) ==> ghostAt(w, "tok", i) == old(ghostAt(w, "tok", i))
-//@     invariant [length_token] u32At(w, old(ghost(w, "n")), orderCode(byteOrder), len(pointss))
-//@     invariant [rings] forall k int :: 0 <= k && k < #1 ==> ptsAt(w, old(ghost(w, "n")) + 1 + 2 * k, orderCode(byteOrder), pointss[k])
+//@     invariant [length_token] u32At(objOf(w), old(ghost(w, "n")), orderCode(byteOrder), len(pointss))
+//@     invariant [rings] forall k int :: 0 <= k && k < #1 ==> ptsAt(objOf(w), old(ghost(w, "n")) + 1 + 2 * k, orderCode(byteOrder), pointss[k])
 
 //@ func writeLineString
 //@   prop C05
@@ -132,7 +154,7 @@ package wkb
 //@   requires [count_fits] len(lineString) <= 4294967295
 //@   ensures [count] result == nil ==> ghost(w, "n") == old(ghost(w, "n")) + 2
 //@   ensures [prefix] result == nil ==> (forall i int :: i < old(ghost(w, "n")) ==> ghostAt(w, "tok", i) == old(ghostAt(w, "tok", i)))
-//@   ensures [body] result == nil ==> ptsAt(w, old(ghost(w, "n")), orderCode(byteOrder), lineString)
+//@   ensures [body] result == nil ==> ptsAt(objOf(w), old(ghost(w, "n")), orderCode(byteOrder), lineString)
 //@   modifies ghost(w, "n"), ghost(w, "tok")
 
 //@ func writePolygon
@@ -142,16 +164,16 @@ package wkb
 //@   requires [counts_fit] len(polygon) <= 4294967295 && (forall k int :: 0 <= k && k < len(polygon) ==> len(polygon[k]) <= 4294967295)
 //@   ensures [count] result == nil ==> ghost(w, "n") == old(ghost(w, "n")) + 1 + 2 * len(polygon)
 //@   ensures [prefix] result == nil ==> (forall i int :: i < old(ghost(w, "n")) ==> ghostAt(w, "tok", i) == old(ghostAt(w, "tok", i)))
-//@   ensures [body] result == nil ==> polyBodyAt(w, old(ghost(w, "n")), orderCode(byteOrder), polygon)
+//@   ensures [body] result == nil ==> polyBodyAt(objOf(w), old(ghost(w, "n")), orderCode(byteOrder), polygon)
 //@   modifies ghost(w, "n"), ghost(w, "tok")
 
 // Layout of a whole geometry at token position b (oc = byte-order code written in the flag).
 //@ spec mpolyOff(mp geom.MultiPolygon, k int) int decreases k = k <= 0 ? 0 : mpolyOff(mp, k-1) + 3 + 2 * len(mp[k-1])
 //@ spec encLen(g geom.Geom) int = typeof(g) == geom.Point ? 3 : (typeof(g) == geom.LineString ? 4 : (typeof(g) == geom.Polygon ? 3 + 2 * len(g.(geom.Polygon)) : (typeof(g) == geom.MultiPoint ? 3 + 3 * len(g.(geom.MultiPoint)) : (typeof(g) == geom.MultiLineString ? 3 + 4 * len(g.(geom.MultiLineString)) : (typeof(g) == geom.MultiPolygon ? 3 + mpolyOff(g.(geom.MultiPolygon), len(g.(geom.MultiPolygon))) : 0)))))
-//@ pred pointEncAt(s interface{}, b int, oc int, p geom.Point) = hdrAt(s, b, oc, 1) && ptAt(s, b + 2, oc, p)
-//@ pred lineEncAt(s interface{}, b int, oc int, l []geom.Point) = hdrAt(s, b, oc, 2) && ptsAt(s, b + 2, oc, l)
-//@ pred polyEncAt(s interface{}, b int, oc int, rings []geom.Path) = hdrAt(s, b, oc, 3) && polyBodyAt(s, b + 2, oc, rings)
-//@ pred encAt(s interface{}, b int, oc int, g geom.Geom) = (typeof(g) == geom.Point ==> pointEncAt(s, b, oc, g.(geom.Point))) && (typeof(g) == geom.LineString ==> lineEncAt(s, b, oc, g.(geom.LineString))) && (typeof(g) == geom.Polygon ==> polyEncAt(s, b, oc, g.(geom.Polygon))) && (typeof(g) == geom.MultiPoint ==> hdrAt(s, b, oc, 4) && u32At(s, b + 2, oc, len(g.(geom.MultiPoint))) && (forall k int :: 0 <= k && k < len(g.(geom.MultiPoint)) ==> pointEncAt(s, b + 3 + 3 * k, oc, g.(geom.MultiPoint)[k]))) && (typeof(g) == geom.MultiLineString ==> hdrAt(s, b, oc, 5) && u32At(s, b + 2, oc, len(g.(geom.MultiLineString))) && (forall k int :: 0 <= k && k < len(g.(geom.MultiLineString)) ==> lineEncAt(s, b + 3 + 4 * k, oc, g.(geom.MultiLineString)[k]))) && (typeof(g) == geom.MultiPolygon ==> hdrAt(s, b, oc, 6) && u32At(s, b + 2, oc, len(g.(geom.MultiPolygon))) && (forall k int :: 0 <= k && k < len(g.(geom.MultiPolygon)) ==> polyEncAt(s, b + 3 + mpolyOff(g.(geom.MultiPolygon), k), oc, g.(geom.MultiPolygon)[k])))
+//@ pred pointEncAt(s int, b int, oc int, p geom.Point) = hdrAt(s, b, oc, 1) && ptAt(s, b + 2, oc, p)
+//@ pred lineEncAt(s int, b int, oc int, l []geom.Point) = hdrAt(s, b, oc, 2) && ptsAt(s, b + 2, oc, l)
+//@ pred polyEncAt(s int, b int, oc int, rings []geom.Path) = hdrAt(s, b, oc, 3) && polyBodyAt(s, b + 2, oc, rings)
+//@ pred encAt(s int, b int, oc int, g geom.Geom) = (typeof(g) == geom.Point ==> pointEncAt(s, b, oc, g.(geom.Point))) && (typeof(g) == geom.LineString ==> lineEncAt(s, b, oc, g.(geom.LineString))) && (typeof(g) == geom.Polygon ==> polyEncAt(s, b, oc, g.(geom.Polygon))) && (typeof(g) == geom.MultiPoint ==> hdrAt(s, b, oc, 4) && u32At(s, b + 2, oc, len(g.(geom.MultiPoint))) && (forall k int :: 0 <= k && k < len(g.(geom.MultiPoint)) ==> pointEncAt(s, b + 3 + 3 * k, oc, g.(geom.MultiPoint)[k]))) && (typeof(g) == geom.MultiLineString ==> hdrAt(s, b, oc, 5) && u32At(s, b + 2, oc, len(g.(geom.MultiLineString))) && (forall k int :: 0 <= k && k < len(g.(geom.MultiLineString)) ==> lineEncAt(s, b + 3 + 4 * k, oc, g.(geom.MultiLineString)[k]))) && (typeof(g) == geom.MultiPolygon ==> hdrAt(s, b, oc, 6) && u32At(s, b + 2, oc, len(g.(geom.MultiPolygon))) && (forall k int :: {mpolyOff(g.(geom.MultiPolygon), k)} 0 <= k && k < len(g.(geom.MultiPolygon)) ==> polyEncAt(s, b + 3 + mpolyOff(g.(geom.MultiPolygon), k), oc, g.(geom.MultiPolygon)[k])))
 //@ pred sizesFit(g geom.Geom) decreases 0 = (typeof(g) == geom.GeometryCollection ==> len(g.(geom.GeometryCollection)) <= 4294967295 && (forall k int :: 0 <= k && k < len(g.(geom.GeometryCollection)) ==> sizesFit(g.(geom.GeometryCollection)[k]))) && (typeof(g) == geom.LineString ==> len(g.(geom.LineString)) <= 4294967295) && (typeof(g) == geom.Polygon ==> len(g.(geom.Polygon)) <= 4294967295 && (forall k int :: 0 <= k && k < len(g.(geom.Polygon)) ==> len(g.(geom.Polygon)[k]) <= 4294967295)) && (typeof(g) == geom.MultiPoint ==> len(g.(geom.MultiPoint)) <= 4294967295) && (typeof(g) == geom.MultiLineString ==> len(g.(geom.MultiLineString)) <= 4294967295 && (forall k int :: 0 <= k && k < len(g.(geom.MultiLineString)) ==> len(g.(geom.MultiLineString)[k]) <= 4294967295)) && (typeof(g) == geom.MultiPolygon ==> len(g.(geom.MultiPolygon)) <= 4294967295 && (forall k int, j int :: 0 <= k && k < len(g.(geom.MultiPolygon)) ==> len(g.(geom.MultiPolygon)[k]) <= 4294967295 && (0 <= j && j < len(g.(geom.MultiPolygon)[k]) ==> len(g.(geom.MultiPolygon)[k][j]) <= 4294967295)))
 
 //@ func Write
@@ -162,10 +184,10 @@ package wkb
 //@   ensures [unsupported_order] !orderOK(byteOrder) ==> result != nil
 //@   ensures [count] result == nil && typeof(g) != geom.GeometryCollection ==> ghost(w, "n") == old(ghost(w, "n")) + encLen(g)
 //@   ensures [prefix] result == nil ==> (forall i int :: i < old(ghost(w, "n")) ==> ghostAt(w, "tok", i) == old(ghostAt(w, "tok", i)))
-//@   ensures [layout] result == nil ==> encAt(w, old(ghost(w, "n")), orderCode(byteOrder), g)
+//@   ensures [layout] result == nil ==> encAt(objOf(w), old(ghost(w, "n")), orderCode(byteOrder), g)
 //@   ensures [grows] result == nil ==> ghost(w, "n") >= old(ghost(w, "n")) + 3
 //@     using mpolyOff_nonneg(g.(geom.MultiPolygon), len(g.(geom.MultiPolygon)))
-//@   ensures [collection_header] result == nil && typeof(g) == geom.GeometryCollection ==> hdrAt(w, old(ghost(w, "n")), orderCode(byteOrder), 7) && u32At(w, old(ghost(w, "n")) + 2, orderCode(byteOrder), len(g.(geom.GeometryCollection)))
+//@   ensures [collection_header] result == nil && typeof(g) == geom.GeometryCollection ==> hdrAt(objOf(w), old(ghost(w, "n")), orderCode(byteOrder), 7) && u32At(objOf(w), old(ghost(w, "n")) + 2, orderCode(byteOrder), len(g.(geom.GeometryCollection)))
 //@   ensures [unsupported_type] typeof(g) != geom.Point && typeof(g) != geom.LineString && typeof(g) != geom.Polygon && typeof(g) != geom.MultiPoint && typeof(g) != geom.MultiLineString && typeof(g) != geom.MultiPolygon && typeof(g) != geom.GeometryCollection ==> result != nil
 //@   modifies ghost(w, "n"), ghost(w, "tok")
 
@@ -176,13 +198,13 @@ package wkb
 //@   requires [count_fits] len(multiPoint) <= 4294967295
 //@   ensures [count] result == nil ==> ghost(w, "n") == old(ghost(w, "n")) + 1 + 3 * len(multiPoint)
 //@   ensures [prefix] result == nil ==> (forall i int :: i < old(ghost(w, "n")) ==> ghostAt(w, "tok", i) == old(ghostAt(w, "tok", i)))
-//@   ensures [body] result == nil ==> u32At(w, old(ghost(w, "n")), orderCode(byteOrder), len(multiPoint)) && (forall k int :: 0 <= k && k < len(multiPoint) ==> pointEncAt(w, old(ghost(w, "n")) + 1 + 3 * k, orderCode(byteOrder), multiPoint[k]))
+//@   ensures [body] result == nil ==> u32At(objOf(w), old(ghost(w, "n")), orderCode(byteOrder), len(multiPoint)) && (forall k int :: 0 <= k && k < len(multiPoint) ==> pointEncAt(objOf(w), old(ghost(w, "n")) + 1 + 3 * k, orderCode(byteOrder), multiPoint[k]))
 //@   modifies ghost(w, "n"), ghost(w, "tok")
 //@   loop 1 `for _, point := range multiPoint`
 //@     invariant [count] #1 <= len(multiPoint) && ghost(w, "n") == old(ghost(w, "n")) + 1 + 3 * #1
 //@     invariant [prefix] forall i int :: i < old(ghost(w, "n")) ==> ghostAt(w, "tok", i) == old(ghostAt(w, "tok", i))
-//@     invariant [length_token] u32At(w, old(ghost(w, "n")), orderCode(byteOrder), len(multiPoint))
-//@     invariant [members] forall k int :: 0 <= k && k < #1 ==> pointEncAt(w, old(ghost(w, "n")) + 1 + 3 * k, orderCode(byteOrder), multiPoint[k])
+//@     invariant [length_token] u32At(objOf(w), old(ghost(w, "n")), orderCode(byteOrder), len(multiPoint))
+//@     invariant [members] forall k int :: 0 <= k && k < #1 ==> pointEncAt(objOf(w), old(ghost(w, "n")) + 1 + 3 * k, orderCode(byteOrder), multiPoint[k])
 
 //@ func writeMultiLineString
 //@   prop C05
@@ -191,13 +213,13 @@ package wkb
 //@   requires [counts_fit] len(multiLineString) <= 4294967295 && (forall k int :: 0 <= k && k < len(multiLineString) ==> len(multiLineString[k]) <= 4294967295)
 //@   ensures [count] result == nil ==> ghost(w, "n") == old(ghost(w, "n")) + 1 + 4 * len(multiLineString)
 //@   ensures [prefix] result == nil ==> (forall i int :: i < old(ghost(w, "n")) ==> ghostAt(w, "tok", i) == old(ghostAt(w, "tok", i)))
-//@   ensures [body] result == nil ==> u32At(w, old(ghost(w, "n")), orderCode(byteOrder), len(multiLineString)) && (forall k int :: 0 <= k && k < len(multiLineString) ==> lineEncAt(w, old(ghost(w, "n")) + 1 + 4 * k, orderCode(byteOrder), multiLineString[k]))
+//@   ensures [body] result == nil ==> u32At(objOf(w), old(ghost(w, "n")), orderCode(byteOrder), len(multiLineString)) && (forall k int :: 0 <= k && k < len(multiLineString) ==> lineEncAt(objOf(w), old(ghost(w, "n")) + 1 + 4 * k, orderCode(byteOrder), multiLineString[k]))
 //@   modifies ghost(w, "n"), ghost(w, "tok")
 //@   loop 1 `for _, lineString := range multiLineString`
 //@     invariant [count] #1 <= len(multiLineString) && ghost(w, "n") == old(ghost(w, "n")) + 1 + 4 * #1
 //@     invariant [prefix] forall i int :: i < old(ghost(w, "n")) ==> ghostAt(w, "tok", i) == old(ghostAt(w, "tok", i))
-//@     invariant [length_token] u32At(w, old(ghost(w, "n")), orderCode(byteOrder), len(multiLineString))
-//@     invariant [members] forall k int :: 0 <= k && k < #1 ==> lineEncAt(w, old(ghost(w, "n")) + 1 + 4 * k, orderCode(byteOrder), multiLineString[k])
+//@     invariant [length_token] u32At(objOf(w), old(ghost(w, "n")), orderCode(byteOrder), len(multiLineString))
+//@     invariant [members] forall k int :: 0 <= k && k < #1 ==> lineEncAt(objOf(w), old(ghost(w, "n")) + 1 + 4 * k, orderCode(byteOrder), multiLineString[k])
 
 //@ lemma mpolyOff_nonneg(mp geom.MultiPolygon, k int)
 //@   induction k
@@ -221,15 +243,15 @@ package wkb
 //@   requires [counts_fit] len(multiPolygon) <= 4294967295 && (forall k int, j int :: 0 <= k && k < len(multiPolygon) ==> len(multiPolygon[k]) <= 4294967295 && (0 <= j && j < len(multiPolygon[k]) ==> len(multiPolygon[k][j]) <= 4294967295))
 //@   ensures [count] result == nil ==> ghost(w, "n") == old(ghost(w, "n")) + 1 + mpolyOff(multiPolygon, len(multiPolygon))
 //@   ensures [prefix] result == nil ==> (forall i int :: i < old(ghost(w, "n")) ==> ghostAt(w, "tok", i) == old(ghostAt(w, "tok", i)))
-//@   ensures [body] result == nil ==> u32At(w, old(ghost(w, "n")), orderCode(byteOrder), len(multiPolygon)) && (forall k int :: {mpolyOff(multiPolygon, k)} 0 <= k && k < len(multiPolygon) ==> polyEncAt(w, old(ghost(w, "n")) + 1 + mpolyOff(multiPolygon, k), orderCode(byteOrder), multiPolygon[k]))
+//@   ensures [body] result == nil ==> u32At(objOf(w), old(ghost(w, "n")), orderCode(byteOrder), len(multiPolygon)) && (forall k int :: {mpolyOff(multiPolygon, k)} 0 <= k && k < len(multiPolygon) ==> polyEncAt(objOf(w), old(ghost(w, "n")) + 1 + mpolyOff(multiPolygon, k), orderCode(byteOrder), multiPolygon[k]))
 //@   modifies ghost(w, "n"), ghost(w, "tok")
 //@   loop 1 `for _, polygon := range multiPolygon`
 //@     invariant [count] #1 <= len(multiPolygon) && ghost(w, "n") == old(ghost(w, "n")) + 1 + mpolyOff(multiPolygon, #1) && mpolyOff(multiPolygon, #1) >= 0
 //@     using mpolyOff_nonneg(multiPolygon, #1), mpolyOff_nonneg(multiPolygon, #1 + 1)
 //@     invariant [prefix] forall i int :: i < old(ghost(w, "n")) ==> ghostAt(w, "tok", i) == old(ghostAt(w, "tok", i))
-//@     invariant [length_token] u32At(w, old(ghost(w, "n")), orderCode(byteOrder), len(multiPolygon))
+//@     invariant [length_token] u32At(objOf(w), old(ghost(w, "n")), orderCode(byteOrder), len(multiPolygon))
 //@     invariant [ends] forall k int :: {mpolyOff(multiPolygon, k)} 0 <= k && k < #1 ==> mpolyOff(multiPolygon, k) >= 0 && mpolyOff(multiPolygon, k) + 3 + 2 * len(multiPolygon[k]) <= mpolyOff(multiPolygon, #1)
-//@     invariant [members] forall k int :: {mpolyOff(multiPolygon, k)} 0 <= k && k < #1 ==> polyEncAt(w, old(ghost(w, "n")) + 1 + mpolyOff(multiPolygon, k), orderCode(byteOrder), multiPolygon[k])
+//@     invariant [members] forall k int :: {mpolyOff(multiPolygon, k)} 0 <= k && k < #1 ==> polyEncAt(objOf(w), old(ghost(w, "n")) + 1 + mpolyOff(multiPolygon, k), orderCode(byteOrder), multiPolygon[k])
 
 //@ func writeGeometryCollection
 //@   prop C05
@@ -238,9 +260,19 @@ package wkb
 //@   requires [count_fits] len(geometryCollection) <= 4294967295 && (forall k int :: 0 <= k && k < len(geometryCollection) ==> sizesFit(geometryCollection[k]))
 //@   ensures [grows] result == nil ==> ghost(w, "n") >= old(ghost(w, "n")) + 1
 //@   ensures [prefix] result == nil ==> (forall i int :: i < old(ghost(w, "n")) ==> ghostAt(w, "tok", i) == old(ghostAt(w, "tok", i)))
-//@   ensures [length_token] result == nil ==> u32At(w, old(ghost(w, "n")), orderCode(byteOrder), len(geometryCollection))
+//@   ensures [length_token] result == nil ==> u32At(objOf(w), old(ghost(w, "n")), orderCode(byteOrder), len(geometryCollection))
 //@   modifies ghost(w, "n"), ghost(w, "tok")
 //@   loop 1 `for _, geom := range geometryCollection`
 //@     invariant [count] #1 <= len(geometryCollection) && ghost(w, "n") >= old(ghost(w, "n")) + 1
 //@     invariant [prefix] forall i int :: i < old(ghost(w, "n")) ==> ghostAt(w, "tok", i) == old(ghostAt(w, "tok", i))
-//@     invariant [length_token] u32At(w, old(ghost(w, "n")), orderCode(byteOrder), len(geometryCollection))
+//@     invariant [length_token] u32At(objOf(w), old(ghost(w, "n")), orderCode(byteOrder), len(geometryCollection))
+
+//@ func Encode
+//@   prop C05
+//@   mode ufloat
+//@   requires [order] typeof(byteOrder) != nil
+//@   requires [sizes] sizesFit(g)
+//@   ensures [error_no_bytes] result1 != nil ==> len(result0) == 0
+//@   ensures [count] result1 == nil && typeof(g) != geom.GeometryCollection ==> ghost(result0, "n") == encLen(g)
+//@   ensures [layout] result1 == nil ==> encAt(objOf(w), 0, orderCode(byteOrder), g)
+//@   ensures [returned_bytes_are_the_buffer] result1 == nil ==> (forall i int :: ghostAt(result0, "tok", i) == ghostAtO(objOf(w), "tok", i))
